@@ -47,10 +47,10 @@ SEG_MUTS = ["s_end_x", "s_start_y", "s_imul", "s_reverse", "s_ctrl", "s_end_rebi
 
 KIND_TABLE = {
     # kind: (derivations, mutation names)
-    "Point": (["copy", "mul", "mul_str", "add", "sub"], ["p_x", "p_y", "p_imul", "p_iadd", "p_setitem", "p_isub"]),
+    "Point": (["copy", "mul", "mul_str", "add", "sub", "radd_zero", "sum_one"], ["p_x", "p_y", "p_imul", "p_iadd", "p_setitem", "p_isub"]),
     "Matrix": (["copy", "mulmat", "matmul", "invert", "mul_str"], ["m_post_scale", "m_pre_rotate", "m_a", "m_imul", "m_inverse", "m_reset", "m_setitem", "m_post_translate"]),
     "Color": (["copy"], ["c_red", "c_opacity", "c_value", "c_alpha", "c_blue"]),
-    "Length": (["copy", "add", "mul_num", "neg"], ["l_imul", "l_iadd", "l_amount", "l_units"]),
+    "Length": (["copy", "add", "mul_num", "neg", "mul_len", "sub", "div_num"], ["l_imul", "l_iadd", "l_amount", "l_units"]),
     "Move": (["copy", "mul", "mul_str", "add_seg", "add_str"], SEG_MUTS),
     "Line": (["copy", "mul", "mul_str", "add_seg", "add_str"], SEG_MUTS),
     "Close": (["copy", "mul", "mul_str", "add_seg"], SEG_MUTS),
@@ -68,7 +68,7 @@ KIND_TABLE = {
     "Polygon": (["copy", "ctor", "mul", "mul_str", "abs", "PathOf", "add_shape"], T_MUTS + G_MUTS + E_MUTS + SHAPE_MUTS + POLY_MUTS),
     "Group": (["copy", "GroupOf", "mul", "mul_str", "abs"], T_MUTS + E_MUTS + GROUP_MUTS),
     "GroupNested": (["copy", "GroupOf", "mul", "mul_str", "abs"], T_MUTS + E_MUTS + GROUP_MUTS),
-    "Text": (["copy", "ctor", "mul", "mul_str", "abs"], T_MUTS + G_MUTS + E_MUTS + ["reify", "t_text", "t_x"]),
+    "Text": (["copy", "ctor", "mul", "mul_str", "abs"], T_MUTS + G_MUTS + E_MUTS + ["reify", "t_text", "t_x", "t_path_imul", "t_path_seg", "t_path_append"]),
     "Image": (["copy", "ctor", "mul", "mul_str", "abs"], T_MUTS + G_MUTS + E_MUTS + ["i_url", "i_x"]),
 }
 KINDS = sorted(KIND_TABLE)
@@ -133,8 +133,10 @@ def generate(seed, index, tier):
     deriv = derivs[(index // len(KINDS)) % len(derivs)]
     case = {"kind": kind, "spec": _obj_spec(ch, kind), "deriv": deriv, "m": ch.choice(DERIV_MATS)}
     # second operand where the derivation takes one
-    if deriv in ("add", "sub", "mulmat", "matmul"):
+    if deriv in ("add", "sub", "mulmat", "matmul", "mul_len"):
         case["spec2"] = _obj_spec(ch, kind)
+        if deriv == "mul_len" and ch.coin(0.6):
+            case["spec"]["units"] = "%"
     elif deriv in ("add_seg", "radd_seg"):
         case["spec2"] = _obj_spec(ch, ch.choice(["Line", "Quad", "Cubic", "Arc", "Move", "Close"]))
     elif deriv == "add_path":
@@ -232,6 +234,9 @@ def build(se, spec):
         return _apply_paint(se, se.Polygon(*n[:8]), spec)
     if k == "Text":
         t = se.Text("hello", x=n[0], y=n[1])
+        if int(abs(n[2])) % 2 == 0:
+            # the optional outline of the text (bbox() looks at it)
+            t.path = se.Path("M%s,%s L%s,%s Q%s,%s %s,%s z" % tuple(n[:8]))
         return _apply_paint(se, t, spec)
     if k == "Image":
         i = se.Image(href="a.png", x=n[0], y=n[1], width=p[0], height=p[1])
@@ -264,7 +269,7 @@ _GEOM = {
     "Circle": ["cx", "cy", "rx", "ry"],
     "Ellipse": ["cx", "cy", "rx", "ry"],
     "SimpleLine": ["x1", "y1", "x2", "y2"],
-    "Text": ["text", "x", "y", "dx", "dy", "width", "height", "anchor", "font_style", "font_variant", "font_weight", "font_stretch", "font_size", "line_height", "font_family"],
+    "Text": ["path", "text", "x", "y", "dx", "dy", "width", "height", "anchor", "font_style", "font_variant", "font_weight", "font_stretch", "font_size", "line_height", "font_family"],
     "Image": ["url", "data", "x", "y", "width", "height", "preserve_aspect_ratio", "viewbox"],
     "SVG": ["x", "y", "width", "height", "viewbox"],
 }
@@ -403,7 +408,7 @@ def public_nodes(se, root, limit=400):
             for i, s in enumerate(o):
                 stack.append(("%s[%d]" % (path, i), s, depth + 1))
         elif isinstance(o, se.SVGElement):
-            for name in ("transform", "fill", "stroke", "values", "viewbox"):
+            for name in ("transform", "fill", "stroke", "values", "viewbox", "path"):
                 if hasattr(o, name):
                     stack.append((path + "." + name, getattr(o, name), depth + 1))
             if isinstance(o, se.Path):
@@ -492,6 +497,14 @@ def derive(se, case, x, x2):
         return x - x2, (None, None)
     if d == "mul_num":
         return x * 2, (None, None)
+    if d == "div_num":
+        return x / 2, (None, None)
+    if d == "mul_len":
+        return x * x2, (None, None)
+    if d == "radd_zero":
+        return 0 + x, (None, None)
+    if d == "sum_one":
+        return sum([x]), (None, None)
     if d == "neg":
         return -x, (None, None)
     if d in ("mulmat",):
@@ -674,6 +687,18 @@ def mutate(se, o, name, k, v):
         o.text = "t%d" % k
     elif name in ("t_x", "i_x"):
         o.x = v
+    elif name in ("t_path_imul", "t_path_seg", "t_path_append"):
+        tp = getattr(o, "path", None)
+        if tp is None:
+            return False
+        if name == "t_path_imul":
+            tp *= Mx
+        elif name == "t_path_seg":
+            if len(tp) == 0 or tp[_idx(k, len(tp))].end is None:
+                return False
+            tp[_idx(k, len(tp))].end.x = v
+        else:
+            tp.append(se.Line(se.Point(v, 0), se.Point(v, v)))
     elif name == "i_url":
         o.url = "u%d.png" % k
     elif name == "svg_viewbox":
@@ -864,6 +889,8 @@ def execute(case, se, out, trace):
             if r:
                 raise V("value", [kind, deriv, key], "Path(x).%s differs from x's: %s" % (key, r))
     b_roots = [y]
+    if isinstance(y, (se.Point, se.Matrix, se.Length, se.Color, se.PathSegment, se.SVGElement, se.Subpath)) and any(y is r_ for r_ in a_roots):
+        raise V("operand-returned", [kind, deriv], "%s of %s handed back one of its operands (the same object): a later in-place operation on the result rewrites the operand" % (deriv, kind))
     if deriv not in INDEPENDENT:
         out.count("probe:operand-only-derivation-checked")
         out.state("%s|%s|-|-" % (kind, deriv))
@@ -892,7 +919,12 @@ def execute(case, se, out, trace):
         pth, node, apath = shared[0]
         out.count("probe:shared:" + type(node).__name__)
         a0 = side_snap(se, a_roots)
-        label = poke(se, node)
+        try:
+            label = poke(se, node)
+        except Exception as e:
+            # the library refused the mutation (e.g. arithmetic on an unrendered Length): not applied
+            out.count("skip:probe-mutation-raises")
+            label = None
         trace.ev("poke", pth, label)
         if label:
             steps += 1
